@@ -309,6 +309,13 @@ func (generator *ConverterGenerator) mappingForOption(context Context, converter
 				{Identifier: mapping.RepeatAs, Type: valueType, Root: true},
 			}
 			argument = generator.argumentForType(context, converter, argName, valuePath, valueType)
+			if generator.nullableTypes.TypeIsNullable(valueType) {
+				argument.Guards = append(argument.Guards, MappingGuard{
+					Path:  valuePath,
+					Op:    ast.NotEqualOp,
+					Value: nil,
+				})
+			}
 			optMapping.Args = append(optMapping.Args, argument)
 			continue
 		}
@@ -575,6 +582,12 @@ func (generator *ConverterGenerator) pathNotNullGuards(rootPath ast.Path, path a
 	var guards []MappingGuard
 
 	for i, chunk := range path {
+		// the value behind an index given as argument can only be checked
+		// where the index is known: see mappingForOption().
+		if chunk.Index != nil && chunk.Index.Argument != nil {
+			continue
+		}
+
 		if !generator.nullableTypes.TypeIsNullable(chunk.Type) {
 			continue
 		}
